@@ -3,6 +3,8 @@
 package slices
 
 type Convergen interface {
+	// CopyC: see SrcC (judged by the hand-written harness G_Extra_Unspellable only).
+	CopyC(*SrcC) *DstC
 	// :typecast
 	CastA(*SrcA) *DstA
 	// NoCastA: element conversions need :typecast.
